@@ -213,4 +213,63 @@ GenObserverPair(seed) ==
                 THEN Rule(<<obs>>, <<IF onSyl THEN Mx(<<GenToneMod(seed, 12)>>) ELSE GenOutSeg(seed, 12)>>, <<>>, <<>>)
                 ELSE Rule(<<GenSeg(seed, 13)>>, <<GenOutSeg(seed, 14)>>, <<IF Chance(seed, 15, 1, 2) THEN Env(<<obs>>, <<>>) ELSE Env(<<>>, <<obs>>)>>, <<>>)
   IN <<writer, reader>>
+
+(* ---------------------------------------------------------------------------------------------------- *)
+(* C12: documented shorthands and their mechanically produced expansions (doc/doc.md "Condensed Rules",   *)
+(* "Special Environment", "Groupings", "Optional Segments", "Metathesis Rules" / "Variables").            *)
+\* group letter -> the matrix the manual gives for it (modifiers are appended)
+RECURSIVE ExpandGroupsEl(_)
+ExpandGroupsEl(e) == IF e.k = "grp" THEN [Mx(GroupMx[e.id] \o e.fm) EXCEPT !.var = e.var]
+                     ELSE IF e.k \in {"set", "struct", "opt"} THEN [e EXCEPT !.items = [i \in 1..Len(e.items) |-> ExpandGroupsEl(e.items[i])]]
+                     ELSE e
+ExpandGroupsSeq(es) == [i \in 1..Len(es) |-> ExpandGroupsEl(es[i])]
+ExpandGroupsEnvs(envs) == [i \in 1..Len(envs) |-> Env(ExpandGroupsSeq(envs[i].b), ExpandGroupsSeq(envs[i].a))]
+ExpandGroups(r) == Rule(ExpandGroupsSeq(r.inp), ExpandGroupsSeq(r.out), ExpandGroupsEnvs(r.ctx), ExpandGroupsEnvs(r.exc))
+\* `_,X` -> `X_` then `_mirror(X)`
+MirrorSeq(es) == [i \in 1..Len(es) |-> es[Len(es) + 1 - i]]
+\* an optional (X, lo:hi) in an environment side -> the environments with lo..hi explicit repetitions (hi > 0)
+RECURSIVE RepSeq(_, _)
+RepSeq(items, n) == IF n = 0 THEN <<>> ELSE items \o RepSeq(items, n - 1)
+ExpandOptSide(side, i, n) == SubSeq(side, 1, i - 1) \o RepSeq(side[i].items, n) \o SubSeq(side, i + 1, Len(side))
+\* metathesis of two elements -> capture both and write them back swapped
+MetAsVars(a, b, ctx, exc) == Rule(<<Bind(a, 1), Bind(b, 2)>>, <<VarRef(2), VarRef(1)>>, ctx, exc)
+
+PlainSeg(seed, p) == LET e == GenSeg(seed, p) IN IF e.k = "ipa" THEN Ipa(e.id) ELSE e
+SimpleSide(seed, p) == [i \in 1..(Pick(seed, p, 3) - 1) |-> PlainSeg(seed, C(p, i))]
+SimpleEnv(seed, p) == LET e == Env(SimpleSide(seed, C(p, 1)), SimpleSide(seed, C(p, 2))) IN IF e = EmptyEnv THEN Env(<<PlainSeg(seed, C(p, 3))>>, <<>>) ELSE e
+GenShorthand(seed) ==
+  LET c == Pick(seed, 3, 5) IN
+  CASE c = 1 ->     \* condensed rule: k sub-rules; each of inputs / outputs / environments is either given k times or once (broadcast)
+        LET k == 1 + Pick(seed, 4, 2)
+            shI == Chance(seed, 5, 1, 3)  shO == Chance(seed, 6, 1, 3)  shC == Chance(seed, 7, 1, 2)  hasC == Chance(seed, 8, 2, 3)
+            inpOf(i) == <<PlainSeg(seed, C(10, IF shI THEN 1 ELSE i))>>
+            outOf(i) == <<GenOutSeg(seed, C(11, IF shO THEN 1 ELSE i))>>
+            ctxOf(i) == IF hasC THEN <<SimpleEnv(seed, C(12, IF shC THEN 1 ELSE i))>> ELSE <<>>
+        IN [kind |-> "condensed", short |-> <<>>,
+            parts |-> [inps |-> [i \in 1..(IF shI THEN 1 ELSE k) |-> inpOf(i)], outs |-> [i \in 1..(IF shO THEN 1 ELSE k) |-> outOf(i)],
+                       ctxs |-> IF hasC THEN [i \in 1..(IF shC THEN 1 ELSE k) |-> ctxOf(i)[1]] ELSE <<>>],
+            long |-> [i \in 1..k |-> Rule(inpOf(i), outOf(i), ctxOf(i), <<>>)]]
+    [] c = 2 ->     \* special environment _,X
+        LET x == [i \in 1..Pick(seed, 4, 2) |-> IF Chance(seed, C(5, i), 1, 5) /\ i = 1 THEN WB ELSE PlainSeg(seed, C(6, i))]
+            inp == <<PlainSeg(seed, 7)>>  out == <<GenOutSeg(seed, 8)>>
+        IN [kind |-> "special-env", short |-> <<>>, parts |-> [inp |-> inp, out |-> out, x |-> x],
+            long |-> <<Rule(inp, out, <<Env(x, <<>>)>>, <<>>), Rule(inp, out, <<Env(<<>>, MirrorSeq(x))>>, <<>>)>>]
+    [] c = 3 ->     \* group letters
+        LET r == GenAny(seed) IN [kind |-> "groups", short |-> <<r>>, parts |-> <<>>, long |-> <<ExpandGroups(r)>>]
+    [] c = 4 ->     \* an optional in a context or exception
+        LET lo == Pick(seed, 4, 3) - 1   hi == lo + Pick(seed, 5, 2)
+            o == Opt(<<PlainSeg(seed, 6)>> \o (IF Chance(seed, 7, 1, 4) THEN <<PlainSeg(seed, 8)>> ELSE <<>>), lo, hi)
+            pre == SimpleSide(seed, 9)  post == SimpleSide(seed, 10)
+            before == Chance(seed, 11, 1, 2)  inExc == Chance(seed, 12, 1, 4)
+            side == pre \o <<o>> \o post
+            envOf(s) == IF before THEN Env(s, <<>>) ELSE Env(<<>>, s)
+            inp == <<PlainSeg(seed, 13)>>  out == <<GenOutSeg(seed, 14)>>
+            longEnvs == [n \in 1..(hi - lo + 1) |-> envOf(ExpandOptSide(side, Len(pre) + 1, lo + n - 1))]
+        IN [kind |-> "optional", short |-> <<IF inExc THEN Rule(inp, out, <<>>, <<envOf(side)>>) ELSE Rule(inp, out, <<envOf(side)>>, <<>>)>>, parts |-> <<>>,
+            long |-> <<IF inExc THEN Rule(inp, out, <<>>, longEnvs) ELSE Rule(inp, out, longEnvs, <<>>)>>]
+    [] OTHER ->     \* A B > &  vs  A=1 B=2 > 2 1  (matrices and groups)
+        LET a == IF Chance(seed, 4, 1, 2) THEN Grp(Pick(seed, 5, 9)) ELSE Mx(GenSegMods(seed, 5))
+            b == IF Chance(seed, 6, 1, 2) THEN Grp(Pick(seed, 7, 9)) ELSE Mx(GenSegMods(seed, 7))
+            ctx == IF Chance(seed, 8, 1, 2) THEN <<SimpleEnv(seed, 9)>> ELSE <<>>
+        IN [kind |-> "metathesis", short |-> <<Rule(<<a, b>>, <<Met>>, ctx, <<>>)>>, parts |-> <<>>, long |-> <<MetAsVars(a, b, ctx, <<>>)>>]
 =============================================================================
